@@ -186,6 +186,11 @@ pub fn gen_header(kind: Kind, r: &mut Rng, p_random_state: bool, cb: u8, bad_arg
             if zero_size {
                 h.sizes[0] = 0;
             }
+            if random_state && !h.with_cb && r.chance(1, 3) {
+                // conversion constructors (FromIterator / From<collection>): sizes[0] = number of pairs
+                h.ctor = r.range(1, 8) as u8;
+                h.sizes[0] = r.below(6) as usize;
+            }
         }
         Kind::Slru => {
             let cap = |r: &mut Rng| match tier {
@@ -684,7 +689,9 @@ pub fn gen(prop: &str, verif_seed: u64, run_index: u64, tier: Tier) -> Trace {
     let mut rs = Rng::stream(seed, "sched");
     let ws: Vec<u32> = pl.kinds.iter().map(|k| k.1).collect();
     let kind = pl.kinds[rc.weighted(&ws)].0;
-    let mut h = gen_header(kind, &mut rc, pl.random_state, pl.cb, pl.bad_ctor_args, tier);
+    // differential second executions compare two instances: every hasher must be owned
+    let differential = pl.env_pair || pl.flip_owned_pair || pl.twin_observer_pair;
+    let mut h = gen_header(kind, &mut rc, pl.random_state && !differential, pl.cb, pl.bad_ctor_args, tier);
     if prop == "C18" {
         // the fault-injection world needs the allocator's exact liveness table: tracked keys only
         h.random_state = false;
